@@ -23,6 +23,7 @@ def cases(draw, tier='quick'):
                               kinds=inf.Q_KINDS + ['zero']))
     case['special'] = draw(st.sampled_from(['none', 'none', 'none', 'fit_exact', 'all_zero_q']))
     case['order_seed'] = draw(st.integers(0, 2**31 - 1))
+    case['warm_flag'] = draw(st.booleans())        # estimator configured with warm_start=True (single call)
     return case
 
 
@@ -40,7 +41,7 @@ def coherent(out, model, attrs, shape, order_seed, tag=''):
     # stored parameters (RDA's dual iterate scales with 1/L and reaches 1e6 for nearly uninformative measurements)
     mag = max([float(np.max(np.abs(v[np.isfinite(v)]))) if np.isfinite(v).any() else 0.0
                for v in (np.asarray(model.potentials[c].values, dtype=float) for c in model.cliques)] + [0.0])
-    sum_tol = 1e-8 + 1e-14 * mag
+    sum_tol = 1e-6 + 1e-14 * mag
     rt, at = 1e-6, 1e-9 * tot
     if hasattr(model, 'marginals'):
         for cl in model.cliques:
@@ -102,6 +103,7 @@ def run_case(case):
     out.extra['theta_offset'] = inf.theta_offset(model)
     out.classes += ['solver:' + case['solver'], 'iters:%d' % case['iters']]
     if case['zeros']: out.classes.append('zeros')
+    if case.get('warm_flag'): out.classes.append('warm_start_flag')
     if not meas: out.classes.append('no_measurements')
     if out.ok:
         inq, outq = res
